@@ -32,6 +32,7 @@ func init() {
 			r.Cov["per_family"] = m.Counts
 			r.Cov["max_routes"] = map[bool]int{true: 3, false: 2}[r.Tier == "thorough"]
 			r.Cov["exhaustive"] = !m.CapHit
+			attachSecondary(r)
 			r.Assume = []string{"route criteria and request fields range over the stated alphabets (case variants, all three scopes, four extended names)", "exactly-once dispatch through the connection loop is checked by the SCHED checks C06/C10"}
 		},
 		Replay: func(p json.RawMessage, c *Ctx) {
@@ -53,6 +54,9 @@ type routeSpec struct {
 type c03rep struct {
 	Table   []routeSpec `json:"table"`
 	Request *codec.Req  `json:"request,omitempty"`
+	// RouterAfter: -1 = the request is served by the Mux directly; j >= 0 = through a Server whose Router was
+	// set after j registrations
+	RouterAfter int `json:"router_after"`
 }
 
 func routeAlphabet() []routeSpec {
@@ -137,13 +141,30 @@ func refServe(table []routeSpec, q *codec.Req) int {
 
 var respTagOf = map[string]int{"bind": codec.AppBindResponse, "search": codec.AppSearchDone, "modify": codec.AppModifyResponse, "add": codec.AppAddResponse, "delete": codec.AppDelResponse, "extended": codec.AppExtendedResp}
 
-func buildMux(table []routeSpec, rec *[]int) (*gldap.Mux, error) {
+// buildMux registers the table on a fresh Mux. With routerAfter >= 0 the mux is handed to a fresh Server
+// (Server.Router) after that many registrations, the rest is registered afterwards, and the router returned
+// is the one the server would give a new connection.
+func buildMux(table []routeSpec, rec *[]int, routerAfter int) (*gldap.Mux, error) {
 	mux, err := gldap.NewMux()
 	if err != nil {
 		return nil, err
 	}
+	var srv *gldap.Server
+	setRouter := func() error {
+		s, err := gldap.NewServer(gldap.WithLogger(quietLogger))
+		if err != nil {
+			return err
+		}
+		srv = s
+		return s.Router(mux)
+	}
 	for i, rt := range table {
 		i := i
+		if i == routerAfter {
+			if err := setRouter(); err != nil {
+				return nil, err
+			}
+		}
 		h := func(w *gldap.ResponseWriter, r *gldap.Request) { *rec = append(*rec, i) }
 		var err error
 		switch rt.Kind {
@@ -178,6 +199,14 @@ func buildMux(table []routeSpec, rec *[]int) (*gldap.Mux, error) {
 			return nil, err
 		}
 	}
+	if routerAfter == len(table) {
+		if err := setRouter(); err != nil {
+			return nil, err
+		}
+	}
+	if srv != nil {
+		return gldap.VServerRouter(srv), nil
+	}
 	return mux, nil
 }
 
@@ -193,14 +222,29 @@ func classOf(q *codec.Req) string {
 
 var refusalSeen = map[string]bool{}
 
+// c03table checks one route table: directly on the Mux, and through a Server that was given the mux before
+// the first registration, after the last one and (thorough) at every point in between.
 func c03table(c *Ctx, table []routeSpec, verbose bool) {
+	c03tableVia(c, table, -1)
+	c03tableVia(c, table, 0)
+	if len(table) > 0 {
+		c03tableVia(c, table, len(table))
+	}
+	if c.Thorough() {
+		for j := 1; j < len(table); j++ {
+			c03tableVia(c, table, j)
+		}
+	}
+}
+
+func c03tableVia(c *Ctx, table []routeSpec, routerAfter int) {
 	c.Count("tables", 1)
 	c.Count("registrations", int64(len(table)))
 	var rec []int
 	var mux *gldap.Mux
 	var err error
-	if k := try(func() { mux, err = buildMux(table, &rec) }); k != "" || err != nil {
-		c.Report("registering a route fails: "+k, fmt.Sprintf("%v: %v", table, err), c03rep{Table: table})
+	if k := try(func() { mux, err = buildMux(table, &rec, routerAfter) }); k != "" || err != nil {
+		c.Report("registering a route fails: "+k, fmt.Sprintf("%v: %v", table, err), c03rep{Table: table, RouterAfter: routerAfter})
 		return
 	}
 	for qi, q := range c03reqs {
@@ -228,8 +272,14 @@ func c03table(c *Ctx, table []routeSpec, verbose bool) {
 			gldap.VServe(mux, w, req)
 			out = append([]byte(nil), mc.Out.Bytes()...)
 		})
-		rep := c03rep{Table: table, Request: q}
-		desc := func() string { return fmt.Sprintf("table=%v request=%s", table, classOf(q)) }
+		rep := c03rep{Table: table, Request: q, RouterAfter: routerAfter}
+		desc := func() string {
+			via := ""
+			if routerAfter >= 0 {
+				via = fmt.Sprintf(" (Server.Router called after %d of %d registrations)", routerAfter, len(table))
+			}
+			return fmt.Sprintf("table=%v request=%s%s", table, classOf(q), via)
+		}
 		if k != "" || derr != nil {
 			c.Report("dispatch fails: "+k, fmt.Sprintf("%s: %v", desc(), derr), rep)
 			continue
